@@ -1,5 +1,5 @@
 (** C02 — No spurious rebuilds.  Statements only; proofs in Build/Proofs_Fresh.v, Proofs_Noop.v, Proofs_Sim.v. *)
-From Dawn Require Import Build.Model Build.Proofs Build.Proofs_Sim Build.Proofs_Fresh Build.Proofs_Noop.
+From Dawn Require Import Build.Model Build.Proofs Build.Proofs_Sim Build.Proofs_Fresh Build.Proofs_Noop Build.Proofs_Dry Build.Proofs_Closure.
 
 (** Rebuilding an unchanged tree executes nothing: after a build (any mode but dry, any failing-body set, not killed) in
     which every target of the requested closure was visited successfully, a plain build of the same label in a fresh
@@ -36,11 +36,25 @@ Theorem load_refresh_invisible : forall w l, rec_of (load w) l = rec_of w l.
 Proof. exact Proofs.rec_of_load. Qed.
 Print Assumptions load_refresh_invisible.
 
+(** Edits outside the dependency closure are invisible: two trees that agree on what the closure L of the requested
+    target mentions -- the definitions and dependency lists of the labels in L (L closed under dependencies), their
+    records, the files at their source and output paths, the run-ID counter ([csim]) -- evaluate every order inside L
+    identically: same visits, events, executed bodies, result.  Other packages' targets and build files, other source
+    files and other records may differ arbitrarily. *)
+Theorem irrelevant_edit :
+  forall c L w1 w2 order l,
+    csim L w1 w2 -> (forall x, In x order -> In x L) ->
+    let o1 := run_order c w1 order l in
+    let o2 := run_order c w2 order l in
+    o_events o1 = o_events o2 /\ o_ran o1 = o_ran o2 /\ o_res o1 = o_res o2 /\ o_vis o1 = o_vis o2 /\
+    csim L (o_w o1) (o_w o2).
+Proof. exact Proofs_Closure.irrelevant_edit. Qed.
+Print Assumptions irrelevant_edit.
+
 (** In the model a file is its content and a function environment is the number the harness assigns to its semantic text,
     so timestamp-only touches, same-content rewrites and comment/whitespace edits are the identity on worlds; that the
     implementation behaves like the model on exactly those edits is what the correspondence check and the "C02" oracle
-    of the engine harness decide.  NOT YET PROVED: irrelevant_edit (an edit outside the closure of l leaves build l
-    unchanged) -- needs a closure-restricted variant of [sim]. *)
+    of the engine harness decide. *)
 
 (** non-vacuity: a three-target project with a generated file consumed as a source; first build runs everything,
     the rebuild runs nothing *)
